@@ -4,6 +4,7 @@ import (
 	"context"
 	"errors"
 	"fmt"
+	"io"
 	"strconv"
 	"strings"
 	"testing"
@@ -104,6 +105,58 @@ func (f *fakeOnOff) UpdateOnOff(ctx context.Context, in *traits.UpdateOnOffReque
 	return f.call(ctx, in.Name, c)
 }
 
+// memberStream is a member's Pull stream: it delivers nothing and ends - with the member's error - when the case releases
+// the member, or as soon as the context it was opened with is done (as a real client stream does).
+type memberStream[T any] struct {
+	grpc.ClientStream
+	ctx    context.Context
+	member group.Member
+}
+
+func (m *memberStream[T]) Recv() (*T, error) {
+	_, err := m.member(m.ctx)
+	if err == nil {
+		err = io.EOF // a stream ends with an error, if only EOF
+	}
+	return nil, err
+}
+func (m *memberStream[T]) Context() context.Context { return m.ctx }
+
+// groupServerStream is the caller's side of a group Pull.
+type groupServerStream[T any] struct {
+	grpc.ServerStream
+	ctx context.Context
+}
+
+func (g *groupServerStream[T]) Context() context.Context { return g.ctx }
+func (g *groupServerStream[T]) Send(*T) error            { return nil }
+
+func (f *fakeLight) PullBrightness(ctx context.Context, in *traits.PullBrightnessRequest, _ ...grpc.CallOption) (traits.LightApi_PullBrightnessClient, error) {
+	i, err := memberIndex(in.Name, len(f.members))
+	if err != nil {
+		return nil, err
+	}
+	c := proto.Clone(in).(*traits.PullBrightnessRequest)
+	c.Name = ""
+	if !proto.Equal(c, f.wantReq) {
+		return nil, status.Errorf(codes.Internal, "member %d was sent %v, the group was asked %v", i, c, f.wantReq)
+	}
+	return &memberStream[traits.PullBrightnessResponse]{ctx: ctx, member: f.members[i]}, nil
+}
+
+func (f *fakeOnOff) PullOnOff(ctx context.Context, in *traits.PullOnOffRequest, _ ...grpc.CallOption) (traits.OnOffApi_PullOnOffClient, error) {
+	i, err := memberIndex(in.Name, len(f.members))
+	if err != nil {
+		return nil, err
+	}
+	c := proto.Clone(in).(*traits.PullOnOffRequest)
+	c.Name = ""
+	if !proto.Equal(c, f.wantReq) {
+		return nil, status.Errorf(codes.Internal, "member %d was sent %v, the group was asked %v", i, c, f.wantReq)
+	}
+	return &memberStream[traits.PullOnOffResponse]{ctx: ctx, member: f.members[i]}, nil
+}
+
 // traitCalls run one group RPC of a trait group whose members are the case's gated members.
 var traitCalls = map[string]func(ctx context.Context, s group.ExecutionStrategy, members []group.Member) error{
 	"lightpb.Group.GetBrightness": func(ctx context.Context, s group.ExecutionStrategy, members []group.Member) error {
@@ -146,6 +199,33 @@ var traitCalls = map[string]func(ctx context.Context, s group.ExecutionStrategy,
 	},
 }
 
+func init() {
+	// group Pulls: every member is a stream that only ever ends with an error, so these are driven with failing,
+	// cancellation-aware members only (see TestTraitGroups)
+	traitCalls["lightpb.Group.PullBrightness"] = func(ctx context.Context, s group.ExecutionStrategy, members []group.Member) error {
+		mk := func() *traits.PullBrightnessRequest {
+			return &traits.PullBrightnessRequest{Name: "the-group", UpdatesOnly: true}
+		}
+		req := mk()
+		want := mk()
+		want.Name = ""
+		g := lightpb.NewGroup(&fakeLight{members: members, wantReq: want}, memberNames(len(members))...)
+		g.ReadExecution = s
+		err := g.PullBrightness(req, &groupServerStream[traits.PullBrightnessResponse]{ctx: ctx})
+		return callerUntouched(err, req, mk())
+	}
+	traitCalls["onoffpb.Group.PullOnOff"] = func(ctx context.Context, s group.ExecutionStrategy, members []group.Member) error {
+		mk := func() *traits.PullOnOffRequest { return &traits.PullOnOffRequest{Name: "the-group", UpdatesOnly: true} }
+		req := mk()
+		want := mk()
+		want.Name = ""
+		g := onoffpb.NewGroup(&fakeOnOff{members: members, wantReq: want}, memberNames(len(members))...)
+		g.ReadExecution = s
+		err := g.PullOnOff(req, &groupServerStream[traits.PullOnOffResponse]{ctx: ctx})
+		return callerUntouched(err, req, mk())
+	}
+}
+
 type requestMutated struct{ error }
 
 func callerUntouched(err error, req, pristine proto.Message) error {
@@ -155,7 +235,8 @@ func callerUntouched(err error, req, pristine proto.Message) error {
 	return err
 }
 
-var traitVias = []string{"lightpb.Group.GetBrightness", "lightpb.Group.UpdateBrightness", "onoffpb.Group.GetOnOff", "onoffpb.Group.UpdateOnOff"}
+var traitVias = []string{"lightpb.Group.GetBrightness", "lightpb.Group.UpdateBrightness", "onoffpb.Group.GetOnOff", "onoffpb.Group.UpdateOnOff",
+	"lightpb.Group.PullBrightness", "onoffpb.Group.PullOnOff"}
 
 // TestTraitGroups: the trait groups built on pkg/group (light, on/off) honour the configured strategy the same way:
 // error or not and which error, every member called once with its own name and the caller's request otherwise intact,
@@ -177,6 +258,11 @@ func TestTraitGroups(t *testing.T) {
 		c.Order = rapid.Permutation(idx).Draw(t, "order")
 		if group.ExecutionStrategy(c.Strategy) == group.ExecutionStrategyOne {
 			c.Order = idx
+		}
+		if strings.Contains(c.Via, ".Pull") {
+			for i := range c.OK {
+				c.OK[i], c.CtxAware[i] = false, true
+			}
 		}
 		err := runGroupCase(c)
 		if errors.Is(err, errUndecided) {
